@@ -958,7 +958,7 @@ func TestC38Guard(t *testing.T) {
 	s := kit.Begin(t, "C38", "guard",
 		"destination address drawn from CIDR tables (loopback, RFC1918+ULA, link-local v4/v6, unspecified, link-local multicast, neighbours just outside each range, gray special-purpose ranges, certainly-public unicast) or a /etc/hosts name; rendered as dotted quad, IPv4-mapped IPv6 in 6 spellings, IPv6 canonical/expanded/upper/uncompressed/alternative-compression/dotted-tail with optional zone, or inet_aton-only spellings; used as URL (scheme, userinfo, port, path/fragment decoys) for guardLLMURL, as redirect target for the client's CheckRedirect, as dial address for guardedDialContext (live context when the target is this machine and the port is the harness listener, else a cancelled context), and end-to-end through the guarded http.Client (direct and via a 30x from a non-private local address); allow switch drawn from off-values/on-values, proxy variables optionally set for dials. Oracle: harness CIDR classifier; internal+guard on => error, no dial attempt (*net.OpError dial), no accept on the listener; certainly-public Go literal => not refused by the guard. Non-trivial: internal destination in a non-canonical spelling with the guard on")
 	defer s.End()
-	s.Assume("sandbox has no DNS: names are limited to /etc/hosts entries; unresolvable spellings being refused is counted as correct")
+	s.Assume("this sub-check uses the system resolver and the sandbox has no DNS: names are limited to /etc/hosts entries; unresolvable spellings being refused is counted as correct (generated DNS answers: sub-check rebind)")
 	s.Assume("link-local multicast (224.0.0.0/24, ff02::/16) is treated as 'link-local' of the statement; other special-purpose ranges are gray (nothing asserted)")
 
 	var c c38Case
